@@ -2,7 +2,6 @@ package main
 
 import (
 	"fmt"
-	"go/ast"
 	"go/token"
 	"go/types"
 	"sort"
@@ -1045,32 +1044,14 @@ func allowedClearCond(cd Cond, desc string, k *kinds) bool {
 	return false
 }
 
-// byValueStructIsKeyType evaluates defs.(*Type).IsKeyType: does `case T_struct` return true?
+// byValueStructIsKeyType evaluates defs.(*Type).IsKeyType for a by-value struct.
 func byValueStructIsKeyType(c *Ctx) bool {
-	fd, p := c.funcDecl(pkgDefs, "Type.IsKeyType")
-	if fd == nil {
+	kf := c.Func(pkgDefs, "(*Type).IsKeyType")
+	tags := c.defsTags()
+	if kf == nil || len(tags) == 0 {
 		return true // unknown: be conservative
 	}
-	res := false
-	ast.Inspect(fd, func(n ast.Node) bool {
-		cc, ok := n.(*ast.CaseClause)
-		if !ok {
-			return true
-		}
-		for _, e := range cc.List {
-			if id, ok := e.(*ast.Ident); ok && id.Name == "T_struct" {
-				for _, st := range cc.Body {
-					if rs, ok := st.(*ast.ReturnStmt); ok && len(rs.Results) == 1 {
-						if tv := p.TypesInfo.Types[rs.Results[0]]; tv.Value != nil && tv.Value.ExactString() == "true" {
-							res = true
-						}
-					}
-				}
-			}
-		}
-		return true
-	})
-	return res
+	return predicateValue(kf, map[string]int64{"T": tags["T_struct"], "V.T": tags["T_struct"]}) != triF
 }
 
 // destWritten: in fn (pointer parameter p), every return with a possibly-nil error in a non-struct case is reached only through a store to p.
